@@ -147,10 +147,10 @@ func (p *c08Probe) observe() c08Obs {
 // c08History is logging traffic on OTHER loggers (plus clones of P's encoder
 // family and pool poisoning).
 type c08History struct {
-	ops   []func()
-	pools map[string]bool
-	big   bool
-	names []string
+	ops       []func()
+	pools     map[string]bool
+	big       bool
+	names     []string
 	otherRefl bool
 }
 
